@@ -23,7 +23,13 @@ type Writer struct {
 var (
 	serializers    sync.Map
 	once           sync.Once
-	defaultOptions = &Options{
+	defaultOptions = newDefaultOptions()
+)
+
+// newDefaultOptions returns a fresh copy of the library defaults. Each writer
+// gets its own copy so that functional options never write to shared state.
+func newDefaultOptions() *Options {
+	return &Options{
 		RenderOptions: &native.RenderOptions{
 			Indent: 4,
 		},
@@ -31,13 +37,13 @@ var (
 		StoreOptions:     &storage.StoreOptions{},
 		formatOptions:    map[string]interface{}{},
 	}
-)
+}
 
 func New(opts ...WriterOption) *Writer {
 	ensureSerializersInitialized()
 	w := &Writer{
 		Storage: fstore.NewFileSystem(),
-		Options: defaultOptions,
+		Options: newDefaultOptions(),
 	}
 
 	for _, opt := range opts {
